@@ -50,7 +50,7 @@ type c07eGrant struct {
 }
 
 type c07eReq struct {
-	Kind int `json:"kind"` // 0 exec command, 1 exec with shell flag, 2 local port forward, 3 issue a shell grant for itself
+	Kind int `json:"kind"` // 0 exec command, 1 exec with shell flag, 2 local port forward, 3 issue a shell grant for itself, 4 remote port forward
 	Cmd  int `json:"cmd"`
 	Var  int `json:"var"` // text variant: 0 exact, 1 prefix, 2 suffix, 3 other case, 4 extra blank
 	WaitS int `json:"wait"` // seconds to let pass before the request
@@ -314,6 +314,10 @@ func c07eScenario(c c07eCase, v *vlib.Verdict) {
 				if m.g.Type%4 == 2 {
 					match = m
 				}
+			case 4:
+				if m.g.Type%4 == 3 {
+					match = m
+				}
 			}
 			if match != nil {
 				break
@@ -334,7 +338,12 @@ func c07eScenario(c c07eCase, v *vlib.Verdict) {
 			allowed, answered = c07eExec(mux, text, rq.Kind == 1)
 		case 2:
 			what = "local port forward"
-			allowed, answered = c07ePF(mux)
+			allowed, answered = c07ePF(mux, 4)
+		case 4:
+			// the address to listen on is a unix socket in a directory that does not exist: the server answers the
+			// request (that answer is the authorization decision), then fails to listen and gives up, so nothing blocks
+			what = "remote port forward"
+			allowed, answered = c07ePF(mux, 5)
 		case 3:
 			what = "issue a shell grant for itself"
 			allowed, answered = c07eIssue(mux, user, c.Key%verifAuthzNKeys, now())
@@ -356,7 +365,7 @@ func c07eScenario(c c07eCase, v *vlib.Verdict) {
 			}
 			continue
 		}
-		kind := []string{"exec-command", "exec-shell", "port-forward", "grant-issuing"}[rq.Kind]
+		kind := []string{"exec-command", "exec-shell", "port-forward", "grant-issuing", "remote-port-forward"}[rq.Kind]
 		if allowed && match == nil {
 			v.Failf("C07:e2e:action-allowed-without-matching-grant:"+kind, "request %d (%s) at t=%ds in a session admitted through grants %+v was ALLOWED although no effective, unused, matching grant exists", ri, what, t, c.Grants)
 			return
@@ -417,14 +426,14 @@ func c07eExec(mux *tubes.Muxer, cmd string, shell bool) (allowed, answered bool)
 	return b == 1, true // execConf = 1, execFail = 2
 }
 
-func c07ePF(mux *tubes.Muxer) (allowed, answered bool) {
+func c07ePF(mux *tubes.Muxer, fwdType byte) (allowed, answered bool) {
 	ctl, err := mux.CreateReliableTube(common.PFControlTube)
 	if err != nil {
 		return false, false
 	}
 	defer ctl.Close()
 	// control message: net type (unix = 3?) | forward type | addr len | addr — built by the package's own encoder
-	msg := c07ePFBytes()
+	msg := c07ePFBytes(fwdType)
 	if msg == nil {
 		return false, false
 	}
@@ -497,7 +506,7 @@ func c07eGen(t *rapid.T) c07eCase {
 	}), 0, 4).Draw(t, "grants")
 	c.Reqs = rapid.SliceOfN(rapid.Custom(func(t *rapid.T) c07eReq {
 		return c07eReq{
-			Kind:  rapid.SampledFrom([]int{0, 0, 0, 1, 2, 2, 3}).Draw(t, "kind"),
+			Kind:  rapid.SampledFrom([]int{0, 0, 0, 1, 2, 2, 3, 4, 4}).Draw(t, "kind"),
 			Cmd:   rapid.IntRange(0, 2).Draw(t, "cmd"),
 			Var:   rapid.SampledFrom([]int{0, 0, 0, 1, 2, 3, 4}).Draw(t, "var"),
 			WaitS: rapid.SampledFrom([]int{0, 0, 0, 5, 40}).Draw(t, "wait"),
@@ -525,8 +534,12 @@ const c07ePFSuccess = 1 // portforwarding: failure = 0, success = 1
 
 // c07ePFBytes: control message for a LOCAL forward to the harness's unix socket
 // (net type 3 = unix, forward type 4 = local, 16-bit address length, address).
-func c07ePFBytes() []byte {
-	msg := []byte{3, 4}
-	msg = binary.BigEndian.AppendUint16(msg, uint16(len(c07eSock)))
-	return append(msg, c07eSock...)
+func c07ePFBytes(fwdType byte) []byte {
+	addr := c07eSock
+	if fwdType == 5 {
+		addr = "/nonexistent-verif-c07/remote.sock"
+	}
+	msg := []byte{3, fwdType}
+	msg = binary.BigEndian.AppendUint16(msg, uint16(len(addr)))
+	return append(msg, addr...)
 }
